@@ -648,7 +648,8 @@ class Actions(Sub):
 
 
 HUGE = [10 ** 9, 999999999999, -10 ** 9, 1e308, 2 ** 70, 0.5, 2, 'abc', '1e999999999']      # the last: TEXT spelling a huge number
-HUGE_LITERALS = ['9^999999999', '7*(9^99999999)', '2^1024', '99^999', '2^999999999^2', '10^400', '1/(9^99999999)', '(2^1023)*2', 'A' * 40000 + '1',
+HUGE_LITERALS = ['9^999999999', '7*(9^99999999)', '2^1024', '99^999', '2^999999999^2', '10^400', '1/(9^99999999)', '(2^1023)*2', 'A' * 40000 + '1', '"' + '1' * 40000 + 'x"+1', '"' + '1' * 20000 + '.' + '2' * 20000 + 'e"*2',
+                 'ABS("' + ' ' * 40000 + 'x")', '"' + '9' * 40000 + '"+1', '"' + '1-' * 20000 + '"+0', '"' + '1:' * 9000 + '"+0',
                  '999999999^999999999', '1^999999999', '0^999999999', 'SUM(9^999999999,1)', '-9^99999999', '9^99999999&"a"',
                  '9^99999999=9^99999999', 'IFERROR(9^999999999,1)', '"1e999999999"+0', '-"1e999999999"', '"5e-999999999"*2',
                  'COUNTIF({1,2},">1e999999999")', '"1e999999999"="1e999999999"', '"1e999999999"&""',
@@ -720,7 +721,8 @@ class Blowups(Sub):
             return None
         if case[0] == 'lit':
             env.nt()
-            prob = self.guarded(env, shared_parser(env), case[1])
+            # long inputs: work proportional to the length is allowed (the date reader tokenises text in Python)
+            prob = self.guarded(env, shared_parser(env), case[1], per_char=300 if len(case[1]) > 1000 else 0)
             if prob:
                 env._c01_stalls = getattr(env, '_c01_stalls', 0) + ('wall-clock' in prob)
                 return fail('parse(%r): %s' % (case[1], prob), None, None)
